@@ -288,22 +288,15 @@ def getDocstring (st : St) : List Obj → DocLookup
 
 /-- returns the `source` (None when `obj.parsed_docstring` stays None) and the new state -/
 def ensureParsed (env : Env) (st : St) (obj : Obj) : Option Obj × St :=
-  let parsed := (st.objs obj).parsed
-  match getDocstring st (obj :: env.inherited obj) with
-  | .found d src =>
-    match parsed with
-    | some _ => (some src, st)
-    | none =>
-      let r := parseDocstring env st obj d src
-      (some src, setParsed r.2 obj r.1)
-  | .empty src =>
-    match parsed with
-    | some _ => (some src, st)
-    | none => (none, st)
-  | .missing =>
-    match parsed with
-    | some _ => (env.parent obj, st)     -- split field: documented by the parent
-    | none => (none, st)
+  match getDocstring st (obj :: env.inherited obj), (st.objs obj).parsed with
+  | .found _ src, some _ => (some src, st)
+  | .found d src, none =>
+    let r := parseDocstring env st obj d src
+    (some src, setParsed r.2 obj r.1)
+  | .empty src, some _ => (some src, st)
+  | .empty _, none => (none, st)
+  | .missing, some _ => (env.parent obj, st)     -- split field: documented by the parent
+  | .missing, none => (none, st)
 
 /-! ### ParsedDocstring.to_stan / to_node / get_summary / get_toc -/
 
